@@ -617,3 +617,9 @@ B('C04', 'prove_avalI fast path without the head test', 'data/expr.py',
   "        assert goal.head == avalI and len(goal.args) == 3, \"prove_avalI_macro: goal is not of the form avalI s t n\"\n", "", 'C04.M9', 'prove_avalI')
 N('C04', 'imp_disj connective test as if / raise', 'logic/logic.py',
   "        assert goal.is_implies(), \"imp_disj: goal is not an implication\"\n", "        if not goal.is_implies():\n            raise AssertionError(\"imp_disj: goal is not an implication\")\n")
+B('C18', 'eq_simplify negated case with the test the wrong way round', 'smt/veriT/verit_macro.py',
+  "            if not lhs.arg.is_equals() or lhs.arg.lhs != lhs.arg.rhs:\n                raise VeriTException(\"eq_simplify\", \"lhs should be of the form ~(t = t).\")",
+  "            if not lhs.arg.is_equals() or lhs.arg.lhs == lhs.arg.rhs:\n                raise VeriTException(\"eq_simplify\", \"lhs should be of the form ~(t = t).\")", 'C18.R10', 'verit_eq_simplify')
+B('C04', 'eq_simplify reflexive case with the test the wrong way round', 'smt/veriT/verit_macro.py',
+  "            if lhs.lhs == lhs.rhs and rhs == true:\n                return Thm(arg)\n            elif rhs == false and lhs.lhs.is_constant()",
+  "            if lhs.lhs != lhs.rhs and rhs == true:\n                return Thm(arg)\n            elif rhs == false and lhs.lhs.is_constant()", 'C04.M10', 'verit_eq_simplify')
